@@ -1226,3 +1226,156 @@ M("N43", "remove_txtpp appends the extension via add-by-format (OsString built w
             name.push(p.as_os_str());
             name.push(".");""")],
   {})
+
+# ------------------------------------------------------------------ more neutral refactors (implementation-shape robustness)
+M("N50", "inject_tags removes the substituted tags with retain over a set of used keys",
+  [(TAG, """        for key in to_remove {
+            self.stored.remove(&key);
+        }""", """        self.stored.retain(|k, _| !to_remove.contains(k));""")],
+  {})
+M("N52", "notify_finish with inverted branches (count > 1 -> decrement, else release)",
+  [(DEP, """            if *count <= 1 {
+                self.out_edge_counts.remove(&depender);
+                output.insert(depender);
+            } else {
+                *count -= 1;
+            }""", """            if *count > 1 {
+                *count -= 1;
+            } else {
+                self.out_edge_counts.remove(&depender);
+                output.insert(depender);
+            }""")],
+  {})
+M("N53", "add_dependency: nested if instead of continue",
+  [(DEP, """            if self.finished.contains(dependency) {
+                continue;
+            }
+            let dependers = self.in_edges.entry(dependency.clone()).or_default();
+            // add depender -> dependency edge
+            if dependers.insert(depender.clone()) {
+                *dependency_count += 1;
+            }
+            added = true;""", """            if !self.finished.contains(dependency) {
+                let dependers = self.in_edges.entry(dependency.clone()).or_default();
+                // add depender -> dependency edge
+                if dependers.insert(depender.clone()) {
+                    *dependency_count += 1;
+                }
+                added = true;
+            }""")],
+  {})
+M("N54", "line processor: pending-newline flag renamed, has_tail computed with Option::is_some() bound first",
+  [(PP, "        let mut add_newline_before_next_output = false;", "        let mut pending_newline = false;"),
+   (PP, """                    if add_newline_before_next_output {
+                        self.context.write_output(self.context.line_ending)?;
+                    }
+                    add_newline_before_next_output = !has_tail;""", """                    if pending_newline {
+                        self.context.write_output(self.context.line_ending)?;
+                    }
+                    pending_newline = !has_tail;"""),
+   (PP, "        if add_newline_before_next_output && trailing_newline {", "        if pending_newline && trailing_newline {")],
+  {})
+M("N56", "supports_multi_line as an explicit match",
+  [(DIR, """        !matches!(
+            self,
+            DirectiveType::After | DirectiveType::Include | DirectiveType::Tag
+        )""", """        match self {
+            DirectiveType::After | DirectiveType::Include | DirectiveType::Tag => false,
+            _ => true,
+        }""")],
+  {})
+M("N57", "detect_from: directive name taken with strip_prefix(TXTPP_HASH) after the find",
+  [(DFROM, "        let directive_name = &line[TXTPP_HASH.len()..];", "        let directive_name = line.strip_prefix(TXTPP_HASH).unwrap_or(line);")],
+  {})
+M("N58", "verify compares slices: buf.as_slice() != output.as_bytes()",
+  [(IO, "                if buf != output.as_bytes() {", "                if buf.as_slice() != output.as_bytes() {")],
+  {})
+M("N60", "execute_file counts the task after computing the display name (still before the spawn)",
+  [(EX, """        let _ = self.progress.add_total(1);
+        let file_target = file.trim_txtpp().map_err(|e| {
+            e.change_context(TxtppError)
+                .attach_printable("cannot trim txtpp extension")
+        })?;""", """        let file_target = file.trim_txtpp().map_err(|e| {
+            e.change_context(TxtppError)
+                .attach_printable("cannot trim txtpp extension")
+        })?;
+        let _ = self.progress.add_total(1);""")],
+  {})
+M("N61", "try_store written with if let + take()",
+  [(TAG, """        match &self.listening {
+            Some(tag) => {
+                self.stored.insert(tag.clone(), content.to_string());
+                self.listening = None;
+                Ok(())
+            }
+            None => Err(()),
+        }""", """        if let Some(tag) = self.listening.take() {
+            self.stored.insert(tag, content.to_string());
+            Ok(())
+        } else {
+            Err(())
+        }""")],
+  {})
+M("N62", "Shell::run builds the Command in steps (let mut cmd) instead of one chain",
+  [(SH, """        let result = Command::new(&self.exe)
+            .current_dir(normalize_path(&work_dir.as_path().display().to_string()))
+            .args(&self.args)
+            .arg(command)
+            .env(TXTPP_FILE, file)
+            .output()""", """        let mut cmd = Command::new(&self.exe);
+        cmd.current_dir(normalize_path(&work_dir.as_path().display().to_string()));
+        cmd.args(&self.args);
+        cmd.arg(command);
+        cmd.env(TXTPP_FILE, file);
+        let result = cmd
+            .output()""")],
+  {})
+M("N63", "scan_dir: early `continue` style instead of nested ifs",
+  [(SCAN, """        if path.is_file() {
+            if path.is_txtpp_file() {
+                let path_abs = dir.share_base(path)?;
+                directory.files.push(path_abs);
+            }
+        } else if path.is_dir() && recursive {
+            let path_abs = dir.share_base(path)?;
+            directory.subdirs.push(path_abs);
+        }""", """        if path.is_file() {
+            if !path.is_txtpp_file() {
+                continue;
+            }
+            let path_abs = dir.share_base(path)?;
+            directory.files.push(path_abs);
+            continue;
+        }
+        if !recursive || !path.is_dir() {
+            continue;
+        }
+        let path_abs = dir.share_base(path)?;
+        directory.subdirs.push(path_abs);""")],
+  {})
+M("N64", "done(): InMemoryBuild arm restructured with an `up_to_date` bool",
+  [(IO, """                if path.as_path().exists() {
+                    let current_content = fs::read(path.as_path())
+                        .change_context_lazy(|| make_error!(self, PpErrorKind::ReadFile))
+                        .attach_printable_lazy(|| {
+                            format!("could not read existing output file: `{}`", path.display())
+                        })?; // early return because if we can't read it, we probably can't write it either
+                    if current_content == out.as_bytes() {
+                        log::debug!("output file already exists with same content, skipping");
+                        return Ok(());
+                    }
+                }""", """                let up_to_date = if path.as_path().exists() {
+                    let current_content = fs::read(path.as_path())
+                        .change_context_lazy(|| make_error!(self, PpErrorKind::ReadFile))
+                        .attach_printable_lazy(|| {
+                            format!("could not read existing output file: `{}`", path.display())
+                        })?; // early return because if we can't read it, we probably can't write it either
+                    current_content == out.as_bytes()
+                } else {
+                    false
+                };
+                if up_to_date {
+                    log::debug!("output file already exists with same content, skipping");
+                    return Ok(());
+                }""")],
+  {})
